@@ -77,6 +77,7 @@ def norm_spec(spec):
     s.setdefault("critical", [])
     s.setdefault("sched", [0])
     s.setdefault("top_pure", False)
+    s.setdefault("verbose", [])
     return s
 
 
@@ -93,10 +94,11 @@ def build(spec):
             kw["label"] = lab
         if j in spec["sched"]:
             members = [objs[k] for k in spec["mem"].get(j, [])]
+            vb = j in spec["verbose"]           # the `verbose` attribute: code paths that print
             if j == 0 and spec["top_pure"]:
-                objs[j] = SPure(*members, jid=j, rank=rank.get(j, j))
+                objs[j] = SPure(*members, jid=j, rank=rank.get(j, j), verbose=vb)
             else:
-                objs[j] = SSched(*members, jid=j, rank=rank.get(j, j), **kw)
+                objs[j] = SSched(*members, jid=j, rank=rank.get(j, j), verbose=vb, **kw)
         else:
             objs[j] = SJob(j, rank.get(j, j), **kw)
     for j in range(n):
@@ -280,6 +282,7 @@ def random_tree(rng, max_depth=3, max_kids=4, p_sched=0.3, p_edge=0.4, allow_emp
             if k in spec["sched"]:
                 fill(k, depth + 1)
     fill(0, 1)
+    spec["verbose"] = [s for s in spec["sched"] if rng.random() < 0.2]
     if rng.random() < 0.5:
         spec["critical"].append(0)
     if dangling:
